@@ -16,6 +16,7 @@ use rtcp_types::{
 };
 
 use crate::ast::*;
+use crate::bufs::{Bufs, Long};
 use crate::custom::{Custom, UnitPkt};
 use crate::render::*;
 use crate::view::dump_kind_again;
@@ -141,9 +142,14 @@ fn mk_sr(ssrc: u32, calls: &[SrCall]) -> SenderReportBuilder {
 }
 
 fn mk_sdes(calls: &[SdesCall]) -> SdesBuilder<'_> {
-    let mut b = Sdes::builder();
+    // `(via_default)` (first call only, checked by the request parser): `Default::default()`
+    let mut b = match calls.first() {
+        Some(SdesCall::ViaDefault) => SdesBuilder::default(),
+        _ => Sdes::builder(),
+    };
     for c in calls {
         b = match c {
+            SdesCall::ViaDefault => b,
             SdesCall::Probe => probed!(b),
             SdesCall::Padding(n) => b.padding(*n),
             SdesCall::AddChunk(ch) => b.add_chunk(mk_chunk(ch)),
@@ -165,9 +171,13 @@ fn mk_unknown<'a>(type_: u8, data: &'a [u8], calls: &[UnkCall]) -> UnknownBuilde
 }
 
 fn mk_nack(calls: &[FciCall<u16>]) -> NackBuilder {
-    let mut b = Nack::builder();
+    let mut b = match calls.first() {
+        Some(FciCall::ViaDefault) => NackBuilder::default(),
+        _ => Nack::builder(),
+    };
     for c in calls {
         b = match c {
+            FciCall::ViaDefault => b,
             FciCall::Probe => probed!(b),
             FciCall::Add(s) => b.add_rtp_sequence(*s),
         };
@@ -176,9 +186,13 @@ fn mk_nack(calls: &[FciCall<u16>]) -> NackBuilder {
 }
 
 fn mk_fir(calls: &[FciCall<(u32, u8)>]) -> FirBuilder {
-    let mut b = Fir::builder();
+    let mut b = match calls.first() {
+        Some(FciCall::ViaDefault) => FirBuilder::default(),
+        _ => Fir::builder(),
+    };
     for c in calls {
         b = match c {
+            FciCall::ViaDefault => b,
             FciCall::Probe => probed!(b),
             FciCall::Add((ssrc, seq)) => b.add_ssrc(*ssrc, *seq),
         };
@@ -190,6 +204,8 @@ fn mk_sli(calls: &[FciCall<(u16, u16, u8)>]) -> SliBuilder {
     let mut b = Sli::builder();
     for c in calls {
         b = match c {
+            // `SliBuilder` has no `Default`: the request parser never produces this for `sli`
+            FciCall::ViaDefault => b,
             FciCall::Probe => probed!(b),
             FciCall::Add((first, number, pid)) => b.add_lost_macroblock(*first, *number, *pid),
         };
@@ -199,9 +215,13 @@ fn mk_sli(calls: &[FciCall<(u16, u16, u8)>]) -> SliBuilder {
 
 /// `native_data` borrows from the AST.
 fn mk_rpsi(calls: &[RpsiCall]) -> RpsiBuilder<'_> {
-    let mut b = Rpsi::builder();
+    let mut b = match calls.first() {
+        Some(RpsiCall::ViaDefault) => RpsiBuilder::default(),
+        _ => Rpsi::builder(),
+    };
     for c in calls {
         b = match c {
+            RpsiCall::ViaDefault => b,
             RpsiCall::Probe => probed!(b),
             RpsiCall::PayloadType(n) => b.payload_type(*n),
             RpsiCall::NativeData(d, k) => b.native_data(&d[..], *k),
@@ -214,9 +234,13 @@ fn mk_rpsi(calls: &[RpsiCall]) -> RpsiBuilder<'_> {
 
 /// `native_data` is given an owned `Vec<u8>`, so that the builder is `'static`.
 fn mk_rpsi_static(calls: &[RpsiCall]) -> RpsiBuilder<'static> {
-    let mut b: RpsiBuilder<'static> = Rpsi::builder();
+    let mut b: RpsiBuilder<'static> = match calls.first() {
+        Some(RpsiCall::ViaDefault) => RpsiBuilder::default(),
+        _ => Rpsi::builder(),
+    };
     for c in calls {
         b = match c {
+            RpsiCall::ViaDefault => b,
             RpsiCall::Probe => probed!(b),
             RpsiCall::PayloadType(n) => b.payload_type(*n),
             RpsiCall::NativeData(d, k) | RpsiCall::NativeDataVec(d, k) => {
@@ -475,9 +499,13 @@ fn build_with<'r, V: Visitor<'r>>(b: &'r B, ctx: &Ctx<'r>, v: V) -> V::Out {
     match b {
         B::Pb(inner) => build_basic(inner, ctx, AsPb(v)),
         B::Compound(members) => {
-            let mut cb = Compound::builder();
+            let mut cb = match members.first() {
+                Some(Member::ViaDefault) => rtcp_types::CompoundBuilder::default(),
+                _ => Compound::builder(),
+            };
             for m in members {
                 cb = match m {
+                    Member::ViaDefault => cb,
                     Member::Probe => probed!(cb),
                     Member::Packet(m) => build_with(m, ctx, AddTo(cb)),
                 };
@@ -513,17 +541,69 @@ pub fn make_buf(len: usize, fill: Fill) -> Vec<u8> {
     }
 }
 
+/// Fills `buf` as FILL says.
+fn fill_buf(buf: &mut [u8], fill: Fill) {
+    match fill {
+        Fill::Const(b) => buf.fill(b),
+        Fill::Pat => {
+            for (i, x) in buf.iter_mut().enumerate() {
+                *x = (i * 31 + 7) as u8;
+            }
+        }
+    }
+}
+
+/// The `w<j>.*` keys. Every `(N FILL)` buffer is the prefix `tx[..N]` of the long-lived output
+/// buffer (PROTOCOL.md §7), filled with FILL: every write of every request goes to the same
+/// address. After a successful write the same builder object writes the same (corrupted) slice
+/// a second time: `w<j>.rewrite_same`.
 fn write_keys(
     out: &mut Out,
+    tx: &mut Long,
     bufs: &[(usize, Fill)],
     mut write: impl FnMut(&mut [u8]) -> Result<usize, rtcp_types::RtcpWriteError>,
 ) {
     for (j, (len, fill)) in bufs.iter().enumerate() {
-        let mut buf = make_buf(*len, *fill);
-        let r = guard(|| write(&mut buf));
+        let buf = tx.prefix(*len);
+        fill_buf(buf, *fill);
+        let r = guard(|| write(&mut *buf));
         out.kv("", &format!("w{j}.res"), &wres(&r));
         if r.is_some() {
-            out.kv("", &format!("w{j}.buf"), &hex(&buf));
+            out.kv("", &format!("w{j}.buf"), &hex(buf));
+        }
+        if let Some(Ok(n)) = r {
+            let verdict = rewrite_same(buf, n, &mut write);
+            out.kv("", &format!("w{j}.rewrite_same"), &verdict);
+        }
+    }
+}
+
+/// `w<j>.rewrite_same` (PROTOCOL.md §4.3): `buf` holds what a first `write_into` returning
+/// `Ok(n)` left in it. Bytes `[8..n)` are flipped in place and the same builder object writes
+/// the same slice again: it has to return `Ok(n)` and to leave the same bytes as the first time
+/// (a writer that believes the buffer "already holds the packet" does not).
+fn rewrite_same(
+    buf: &mut [u8],
+    n: usize,
+    write: &mut impl FnMut(&mut [u8]) -> Result<usize, rtcp_types::RtcpWriteError>,
+) -> String {
+    let first = buf.to_vec();
+    let end = n.min(buf.len());
+    if end > 8 {
+        for x in &mut buf[8..end] {
+            *x ^= 0xff;
+        }
+    }
+    let r = guard(|| write(&mut *buf));
+    let diff = first.iter().zip(buf.iter()).position(|(a, b)| a != b);
+    match (&r, diff) {
+        (Some(Ok(m)), None) if *m == n => "true".to_string(),
+        _ => {
+            let at = match diff {
+                Some(i) => i.to_string(),
+                None => "none".to_string(),
+            };
+            format!("false:{}:{at}", wres(&r))
         }
     }
 }
@@ -531,9 +611,12 @@ fn write_keys(
 /// Runs the protocol of §4.3 on the top-level builder.
 struct Run<'o> {
     out: &'o mut Out,
+    io: &'o mut Bufs,
     bufs: &'o [(usize, Fill)],
     rt: Option<Kind>,
     size_only: bool,
+    /// `(rt_first)`: the round trip is made before the `bufs` writes
+    rt_first: bool,
 }
 
 impl<'r, 'o> Visitor<'r> for Run<'o> {
@@ -552,41 +635,135 @@ impl<'r, 'o> Visitor<'r> for Run<'o> {
             return;
         }
 
-        write_keys(out, self.bufs, |buf| t.write_into(buf));
-
-        let (Some(kind), Some(Ok(n))) = (self.rt, size) else {
-            return;
-        };
-        let mut buf = vec![0xa5u8; n];
-        match guard(|| t.write_into(&mut buf)) {
-            None => out.kv("rt", "res", "panic-write"),
-            Some(Err(e)) => out.kv("rt", "res", &format!("write-err:{}", werr(&e))),
-            Some(Ok(m)) => match buf.get(..m) {
-                Some(written) => dump_kind_again(out, "rt", kind, written),
-                None => out.kv("rt", "res", &format!("bad-len:{m}")),
-            },
+        let Bufs { rx, tx, .. } = self.io;
+        if self.rt_first {
+            // the keys are the same; the last `write_into` of the request is then the one into
+            // the last `bufs` entry
+            let mut rt = Out::new();
+            round_trip(&mut rt, rx, tx, self.rt, &size, &t);
+            write_keys(out, tx, self.bufs, |buf| t.write_into(buf));
+            out.buf.push_str(&rt.buf);
+        } else {
+            write_keys(out, tx, self.bufs, |buf| t.write_into(buf));
+            round_trip(out, rx, tx, self.rt, &size, &t);
         }
     }
 }
 
-pub fn run_size(out: &mut Out, b: &B) {
-    run_build_opt(out, b, &[], true)
+/// The `rt.*` keys (PROTOCOL.md §4.3). The round trip writes to the long-lived output buffer as
+/// well; what it wrote is received like every other parser input: copied to the start of the
+/// receive buffer.
+fn round_trip<T: RtcpPacketWriter>(
+    out: &mut Out,
+    rx: &mut Long,
+    tx: &mut Long,
+    rt: Option<Kind>,
+    size: &Option<Result<usize, rtcp_types::RtcpWriteError>>,
+    t: &T,
+) {
+    let (Some(kind), Some(Ok(n))) = (rt, size) else {
+        return;
+    };
+    let buf = tx.prefix(*n);
+    buf.fill(0xa5);
+    match guard(|| t.write_into(&mut *buf)) {
+        None => out.kv("rt", "res", "panic-write"),
+        Some(Err(e)) => out.kv("rt", "res", &format!("write-err:{}", werr(&e))),
+        Some(Ok(m)) => match buf.get(..m) {
+            Some(written) => dump_kind_again(out, "rt", kind, rx.load(written)),
+            None => out.kv("rt", "res", &format!("bad-len:{m}")),
+        },
+    }
 }
 
-pub fn run_build(out: &mut Out, b: &B, bufs: &[(usize, Fill)]) {
-    run_build_opt(out, b, bufs, false)
+/// Hands the concrete builder on as a trait object (its methods are still the crate's own:
+/// the vtable of the crate's type).
+struct WithDyn<'f, 'r>(&'f mut dyn FnMut(&(dyn RtcpPacketWriter + 'r)));
+
+impl<'f, 'r> Visitor<'r> for WithDyn<'f, 'r> {
+    type Out = ();
+    fn visit<T: RtcpPacketWriter + 'r>(self, t: T) {
+        (self.0)(&t)
+    }
 }
 
-fn run_build_opt(out: &mut Out, b: &B, bufs: &[(usize, Fill)], size_only: bool) {
+fn usize_res(r: &Option<usize>) -> String {
+    match r {
+        Some(n) => format!("ok:{n}"),
+        None => "panic".to_string(),
+    }
+}
+
+/// `(interleave A B)` (PROTOCOL.md §4.5): both builders exist before anything is asked of them;
+/// `a.calculate_size()`, `b.calculate_size()`, then `a.write_into_unchecked(bufA)`,
+/// `b.write_into_unchecked(bufB)` with nothing in between, on two disjoint regions of the
+/// long-lived output buffer.
+pub fn run_interleave(out: &mut Out, io: &mut Bufs, a: &B, b: &B) {
+    let mut arena = Vec::new();
+    collect_fcis(a, &mut arena);
+    collect_fcis(b, &mut arena);
+    let ctx = Ctx {
+        arena: &arena,
+        next: Cell::new(0),
+    };
+    let tx = &mut io.tx;
+    build_with(
+        a,
+        &ctx,
+        WithDyn(&mut |ta| {
+            build_with(b, &ctx, WithDyn(&mut |tb| interleave(out, tx, ta, tb)));
+        }),
+    );
+}
+
+fn interleave(out: &mut Out, tx: &mut Long, a: &dyn RtcpPacketWriter, b: &dyn RtcpPacketWriter) {
+    let sa = guard(|| a.calculate_size());
+    let sb = guard(|| b.calculate_size());
+    out.kv("a", "size", &wres(&sa));
+    out.kv("b", "size", &wres(&sb));
+    let (Some(Ok(na)), Some(Ok(nb))) = (sa, sb) else {
+        return;
+    };
+    let both = tx.prefix(na + nb);
+    both.fill(0xee);
+    let (buf_a, buf_b) = both.split_at_mut(na);
+    let ra = guard(|| a.write_into_unchecked(&mut *buf_a));
+    let rb = guard(|| b.write_into_unchecked(&mut *buf_b));
+    out.kv("a", "res", &usize_res(&ra));
+    if ra.is_some() {
+        out.kv("a", "buf", &hex(buf_a));
+    }
+    out.kv("b", "res", &usize_res(&rb));
+    if rb.is_some() {
+        out.kv("b", "buf", &hex(buf_b));
+    }
+}
+
+pub fn run_size(out: &mut Out, io: &mut Bufs, b: &B) {
+    run_build_opt(out, io, b, &[], true, false)
+}
+
+pub fn run_build(out: &mut Out, io: &mut Bufs, b: &B, bufs: &[(usize, Fill)], rt_first: bool) {
+    run_build_opt(out, io, b, bufs, false, rt_first)
+}
+
+fn run_build_opt(
+    out: &mut Out,
+    io: &mut Bufs,
+    b: &B,
+    bufs: &[(usize, Fill)],
+    size_only: bool,
+    rt_first: bool,
+) {
     match b {
         // not `RtcpPacketWriter`s: only the inherent `write_into` is public
         B::Chunk(ch) => {
             let cb = mk_chunk(ch);
-            write_keys(out, bufs, |buf| cb.write_into(buf));
+            write_keys(out, &mut io.tx, bufs, |buf| cb.write_into(buf));
         }
         B::Item(it) => {
             let ib = mk_item(it);
-            write_keys(out, bufs, |buf| ib.write_into(buf));
+            write_keys(out, &mut io.tx, bufs, |buf| ib.write_into(buf));
         }
         _ => {
             let mut arena = Vec::new();
@@ -600,9 +777,11 @@ fn run_build_opt(out: &mut Out, b: &B, bufs: &[(usize, Fill)], size_only: bool) 
                 &ctx,
                 Run {
                     out,
+                    io,
                     bufs,
                     rt: b.rt_kind(),
                     size_only,
+                    rt_first,
                 },
             );
         }
